@@ -407,8 +407,7 @@ def run(ctx):
         ok = False
         detail = "Database::keyspace lacks the lookup / the create_options call"
         if get and co:
-            sw = A.switch_after_call(kf, get[0])
-            _, labels = A.switch_info(kf, sw) if sw is not None else (None, {})
+            sw, labels = A.option_switch_on(kf, og, get[0])
             some_t = [tg for tg, ns in labels.items() if "Some" in ns]
             none_t = [tg for tg, ns in labels.items() if "None" in ns]
             ok = bool(some_t) and not any(x in A.reach(kf, some_t) for x in co + cn + ck) and all(A.dominates(kf, get[0], c) for c in co)
